@@ -89,8 +89,8 @@ fn parse_script(v: &Value) -> Result<Script, String> {
             Some("sleep") => {
                 s["ms"].as_u64().ok_or("sleep without ms")?;
             }
-            Some("stop") | Some("start") => {
-                s["node"].as_u64().ok_or("stop / start without node")?;
+            Some("stop") | Some("start") | Some("refuse") => {
+                s["node"].as_u64().ok_or("stop / start / refuse without node")?;
             }
             Some("name") => {
                 s["name"].as_str().ok_or("name step without name")?;
@@ -328,6 +328,7 @@ async fn run_script(sc: &Script) -> Value {
     // Ports are reused from the previous script: retry binding for up to 3 s.
     let t0 = Instant::now();
     let mock = loop {
+        crate::mock::REFUSE_NODE.store(-1, std::sync::atomic::Ordering::SeqCst);
         match MockCluster::try_start(mock_config(sc), make_handler(sc.use_delay_ms)).await {
             Ok(m) => break m,
             Err(_) if t0.elapsed() < Duration::from_secs(3) => tokio::time::sleep(Duration::from_millis(50)).await,
@@ -454,6 +455,11 @@ async fn run_with_mock(sc: &Script, mock: &MockCluster) -> Value {
                 if let Err(e) = start_node_retrying(mock, node).await {
                     harness_err = format!("restart node {node}: {e}");
                 }
+            }
+            // the node stops / resumes accepting NEW connections (established ones are untouched)
+            "refuse" => {
+                let node = step["node"].as_i64().unwrap_or(0) as i32;
+                crate::mock::REFUSE_NODE.store(if step["on"].as_u64() == Some(1) { node } else { -1 }, std::sync::atomic::Ordering::SeqCst);
             }
             // the two halves of a restart as separate steps, so that a use call can fall in between
             "stop" => {
